@@ -125,11 +125,7 @@ def run_family(rep, pid, quick, only=None):
     if only and "reset" in only:
         seqs = [q for q in seqs if "reset" in q and "pflow" in q]
     rnd = random.Random("lc-%d" % seed())
-    if quick and len(seqs) > 120:
-        must = [q for q in seqs if len(q) <= 2]
-        rest = [q for q in seqs if len(q) > 2]
-        rnd.shuffle(rest)
-        seqs = must + rest[:120 - len(must)]
+    rep.extra["lifecycle_sequences_exhaustive_len"] = 3 if quick else 4
     cases = ["kundur/kundur_full.json"] if quick else ["kundur/kundur_full.json", "ieee14/ieee14_fault.json"]
     scs = []
     for case in cases:
